@@ -25,6 +25,7 @@ type HistOpts struct {
 	Boundary      bool // include malformed / boundary inputs (0x values, forged reports, gov list changes by gov ...)
 	GovOps        bool // governance-signed privileged ops (cycle list, params, spec updates, mint init)
 	NoBadValues   bool // never submit values that the known halting defects need (used while a finding is open)
+	ValsetBias    int  // EVM registration at any time, checkpoint signing, power shifts around 5%, two-week gaps (C16)
 	Probe         bool // after every block, probe the aggregate getters and record the answers (C08)
 	TieBias       bool // equal-power reporters submitting a few distinct values (equal-weight ties in weighted-mode rounds)
 	Stories       int  // percentage of histories that contain a scripted dispute life cycle
@@ -327,6 +328,23 @@ func (w *World) RandomOp(o HistOpts) {
 			w.RegisterSpec(w.anyActor(), types[w.pick(len(types))], spec)
 		}},
 	}
+	if o.ValsetBias > 0 {
+		ops = append(ops, op{2 * o.ValsetBias, func() { w.RegisterEVM(w.val()) }})
+		ops = append(ops, op{4 * o.ValsetBias, func() { w.SignValset(w.val()) }})
+		ops = append(ops, op{4 * o.ValsetBias, func() {
+			// shift one validator's power by about 1%..8% of the total bonded stake, either way
+			tot, _ := w.App.StakingKeeper.TotalBondedTokens(w.Ctx)
+			pct := []int64{1, 2, 4, 5, 6, 8}[w.pick(6)]
+			amt := tot.MulRaw(pct).QuoRaw(100).Int64()
+			v := w.val()
+			if w.pick(2) == 0 {
+				w.Delegate(w.Team, v, amt)
+			} else {
+				a := v.Oper
+				w.Undelegate(&a, v, amt)
+			}
+		}})
+	}
 	if o.ValStatus && len(w.Vals) > 1 {
 		ops = append(ops, op{3, func() {
 			v := w.Vals[1+w.pick(len(w.Vals)-1)] // v0 stays bonded (assumption A-1)
@@ -505,6 +523,11 @@ func (w *World) gapMs(o HistOpts) time.Duration {
 		return 15 * 24 * time.Hour
 	case 6:
 		return 13 * time.Hour
+	case 7, 8:
+		if o.ValsetBias > 0 {
+			return []time.Duration{14*24*time.Hour - 2*time.Second, 14*24*time.Hour - time.Second, 14 * 24 * time.Hour, 14*24*time.Hour + time.Second, 7 * 24 * time.Hour}[w.pick(5)]
+		}
+		return time.Duration(1+w.pick(6)) * time.Second
 	default:
 		return time.Duration(1+w.pick(6)) * time.Second
 	}
